@@ -1,7 +1,7 @@
 """Shared helpers of harness/c11.py and harness/c15.py (Matcher models, extraction tag "matcher").
 Encoders for the entry points of coq/theories/Matcher/MatcherEntries.v, enumerators, and the
 implementation-side observers for paho.mqtt.matcher.MQTTMatcher."""
-import itertools, multiprocessing, os
+import glob, itertools, json, multiprocessing, os
 
 from vlib import model
 
@@ -75,6 +75,14 @@ def dump_node(node):
     return out
 
 
+def snap(node):
+    """cheap structural snapshot (nested tuples) for 'did this operation change the trie'"""
+    ch = node._children
+    if not ch:
+        return (node._content,)
+    return (node._content, tuple(sorted((k, snap(c)) for k, c in ch.items())))
+
+
 def stored(node, path=()):
     """[(filter, value)] of every node with content, via the structure"""
     res = []
@@ -115,7 +123,7 @@ def impl_ops(MQTTMatcher, ops, mode=0):
     model: a read-only op or a delete of an unstored filter changed the structure."""
     m = MQTTMatcher()
     trace, strace, problems = [], [], []
-    before = dump_node(m._root)
+    before = snap(m._root)
     for idx, o in enumerate(ops):
         kind = o[0]
         was_stored = None
@@ -144,7 +152,7 @@ def impl_ops(MQTTMatcher, ops, mode=0):
             vs = list(m.iter_match(o[1]))
             r = [3, len(vs)] + vs
             sr = [3, len(vs)] + sorted(vs)
-        after = dump_node(m._root)
+        after = snap(m._root)
         if kind in ("get", "iter") and after != before:
             problems.append((idx, f"{kind} changed the trie"))
         if kind == "del" and was_stored is False and after != before:
@@ -153,7 +161,7 @@ def impl_ops(MQTTMatcher, ops, mode=0):
         trace += r
         strace += sr
         if mode == 0 or mutating:
-            trace += after
+            trace += dump_node(m._root)
             strace += dump_stored(m._root)
         before = after
     return trace, strace, problems
@@ -161,3 +169,30 @@ def impl_ops(MQTTMatcher, ops, mode=0):
 
 def model_ops_batch(entry, oplists, mode=0):
     return model.run_batch(TAG, entry, [enc_ops(ops, mode) for ops in oplists])
+
+
+# ---------------------------------------------------------------- stored corpus
+ROOT = os.path.dirname(os.path.dirname(os.path.abspath(__file__)))
+
+
+def run_corpus(out, prop, replay):
+    """corpus/<prop>/*.json: kind "regression" must hold on the implementation; kind "documented-witness"
+    records behaviour outside the property - it is replayed and only reported."""
+    for path in sorted(glob.glob(os.path.join(ROOT, "corpus", prop, "*.json"))):
+        payload = json.load(open(path))
+        name = os.path.basename(path)
+        try:
+            ok, detail = replay(payload)
+        except Exception as e:
+            ok, detail = False, {"raised": f"{type(e).__name__}: {e}"}
+        out.cases += 1
+        if payload.get("kind") == "regression":
+            out.validated += 1
+            out.stat("corpus:regressions")
+            if not ok:
+                out.violations.append({"case": payload.get("case"), "what": f"corpus regression {name} fails: {json.dumps(detail, default=str)[:600]}",
+                                       "signature": "corpus-" + name})
+        else:
+            out.stat("corpus:documented_witness_still_differs" if not ok else "corpus:documented_witness_no_longer_differs")
+            if ok:
+                out.notes.append(f"documented witness {name} no longer differs from the specification on this tree")
